@@ -121,6 +121,7 @@ fn run_hist(args: &Args, oracle: Oracle, mix: Mix) -> (Report, String, bool) {
     let label = args.property.clone();
     let seed = args.seed;
     let thresholds = hist::threshold_cases(true);
+    let magnitudes = hist::magnitude_cases(seed, thorough);
     let total = report::sharded(SHARDS, |shard| {
         let mut rep = Report::new();
         // singles and ordered pairs of the attribute family
@@ -186,6 +187,13 @@ fn run_hist(args: &Args, oracle: Oracle, mix: Mix) -> (Report, String, bool) {
                 rep.count("threshold_cases");
             }
         }
+        // T7: the same dimensions at decimal round numbers and seeded log-uniform magnitudes
+        for (i, c) in magnitudes.iter().enumerate() {
+            if i % SHARDS == shard {
+                hist::run_case(c, oracle, &mut rep);
+                rep.count("magnitude_cases");
+            }
+        }
         // random histories
         let per = n_random / SHARDS as u64;
         for k in 0..per {
@@ -196,7 +204,7 @@ fn run_hist(args: &Args, oracle: Oracle, mix: Mix) -> (Report, String, bool) {
         rep
     });
     let rule = format!(
-        "histories parse(D1),extend(D2..Dk) through the real parser: (1) exhaustive — every document over names {{a,b}} under root r with <= {} elements below the root, depth <= 2, attribute k on or off ({} documents; all singles and all {} ordered pairs) and every ordered pair of the {} documents with <= 2 elements and text on/off; (2) sampled triples of those; (3) {} seeded random histories (profiles tiny/general/many-docs/adversarial names/wide/deep/long-list, 1-16 documents, random surface syntax and reader kinds); (4) exhaustive occurrence patterns: every assignment of absent/once/twice to each child over k occurrences of one parent (k=2,3 over three children, k=4 over two, k=5 over one; thorough: k=4 over three, k=5 over two, k=6 over one), each supplied inside one document, one occurrence per document, and under two occurrences of a grandparent; (5) deterministic threshold families: N occurrences of a parent (254..513, 65535..65537), N same-named children in one occurrence (255..1024, 65536, 131072), M distinct child or attribute names (63..300) with late repeats / late absences, chains of depth 7..300 (same name, distinct names, alternating, two branches, deep part arriving with the third document), text/CDATA nodes with a multi-byte character straddling offsets 64..4096. Non-trivial: the reference schema has more than one position or an attribute; distinct: hash of (canonical reference schema, rendered bytes).",
+        "histories parse(D1),extend(D2..Dk) through the real parser: (1) exhaustive — every document over names {{a,b}} under root r with <= {} elements below the root, depth <= 2, attribute k on or off ({} documents; all singles and all {} ordered pairs) and every ordered pair of the {} documents with <= 2 elements and text on/off; (2) sampled triples of those; (3) {} seeded random histories (profiles tiny/general/many-docs/adversarial names/wide/deep/long-list, 1-16 documents, random surface syntax and reader kinds); (4) exhaustive occurrence patterns: every assignment of absent/once/twice to each child over k occurrences of one parent (k=2,3 over three children, k=4 over two, k=5 over one; thorough: k=4 over three, k=5 over two, k=6 over one), each supplied inside one document, one occurrence per document, and under two occurrences of a grandparent; (5) deterministic threshold families: N occurrences of a parent (254..513, 65535..65537), N same-named children in one occurrence (255..1024, 65536, 131072), M distinct child or attribute names (63..300) with late repeats / late absences, chains of depth 7..300 (same name, distinct names, alternating, two branches, deep part arriving with the third document), text/CDATA nodes with a multi-byte character straddling offsets 64..4096; (6) magnitude families (T7): the same dimensions (occurrences, siblings, distinct child/attribute names, depth <= 199, name length, number of documents) at decimal round numbers (10..10000) and at seeded log-uniform random magnitudes, with a seeded position for the one occurrence/document that lacks or doubles the child. Non-trivial: the reference schema has more than one position or an attribute; distinct: hash of (canonical reference schema, rendered bytes).",
         if thorough { 4 } else { 3 },
         na,
         na * na,
